@@ -1,10 +1,14 @@
 import logging
 from threading import Thread
 import asyncio
+from experimaestro.utils import verif as _verif
 
 
 def asyncThreadcheck(name, func, *args, **kwargs) -> asyncio.Future:
     """Launch a thread that will return a future"""
+    if _verif.ACTIVE and _verif.thread_hook is not None:
+        return _verif.thread_hook(name, func, args, kwargs)
+
     loop = asyncio.get_running_loop()
     future = loop.create_future()
 
